@@ -150,6 +150,8 @@ deriving Inhabited
 /-- `noBuf`: `buf == nil`. In that case AssignToStr *appends* to the old content (`appendsOld`). -/
 structure AssignCfg where
   strAppendsOld : Bool := true
+  /-- a nil pointer source is dereferenced -/
+  nilSrcPanics : Bool := true
 deriving Repr, Inhabited
 
 def scalarNonZero : Val → Bool
@@ -161,6 +163,7 @@ def scalarNonZero : Val → Bool
 /-- The whole chain (inspector.go:73-79 order: Bytes, Str, Bool, Int, Uint, Float) for destination
 kind `dk` holding `old`. -/
 def assignM (acfg : AssignCfg) (dk : DynKind) (old : Val) (s : Src) (noBuf : Bool) : AssignR :=
+  if s.v.isNilPtr && s.kind != .foreign && !acfg.nilSrcPanics then .no else
   match dk with
   | .bytes =>
     (match s.kind.family with
